@@ -115,6 +115,9 @@ func DigestPowershell(r io.Reader, style PsSigStyle, hash crypto.Hash) (*PsDiges
 			return nil, err
 		}
 		if line == first {
+			if len(saved) < 2 || (isUtf16 && len(saved) < 4) {
+				return nil, errors.New("malformed powershell signature")
+			}
 			// remove EOL from previous line
 			if isUtf16 {
 				saved = saved[:len(saved)-4]
